@@ -124,7 +124,10 @@ impl Ctx {
     }
     /// the property's direct oracle failed on the implementation's own output
     pub fn oracle_fail(&mut self, prop: &str, line: &str, detail: &str) {
-        writeln!(self.oracle, "{}\t{}\t{}", prop, line, detail).unwrap();
+        // keep the file small when a change breaks a property on millions of inputs
+        if self.n_oracle_fail < 20000 {
+            writeln!(self.oracle, "{}\t{}\t{}", prop, line, detail).unwrap();
+        }
         self.n_oracle_fail += 1;
     }
 }
